@@ -81,8 +81,12 @@ func genC18(e *Engine, ld *Loaded) ([]FuncTarget, error) {
 	for _, f := range lists {
 		for _, o := range []string{"dst", "src"} {
 			p, n := reg(o, f)
-			chk(add("requires", "wf-"+o+"-"+f, fmt.Sprintf("0 <= len(%s.%s) && len(%s.%s) <= cap(%s.%s) && cap(%s.%s) < 1<<40 && valid(%s, %s)", o, f, o, f, o, f, o, f, p, n)))
-			chk(add("requires", "sep-"+o+"-"+f, fmt.Sprintf("disjoint(%s, %s, dst, %d) && disjoint(%s, %s, src, %d)", p, n, size, p, n, size)))
+			chk(add("requires", "wf-"+o+"-"+f, fmt.Sprintf("0 <= len(%s.%s) && len(%s.%s) <= cap(%s.%s) && cap(%s.%s) < 1<<40 && (cap(%s.%s) > 0 ==> valid(%s, %s))", o, f, o, f, o, f, o, f, o, f, p, n)))
+			if o == "dst" {
+				chk(add("requires", "sep-"+o+"-"+f, fmt.Sprintf("disjoint(%s, %s, dst, %d) && disjoint(%s, %s, src, %d)", p, n, size, p, n, size)))
+			} else {
+				chk(add("requires", "sep-"+o+"-"+f, fmt.Sprintf("disjoint(%s, %s, dst, %d)", p, n, size)))
+			}
 		}
 		dp, dn := reg("dst", f)
 		for _, g := range lists {
@@ -131,11 +135,139 @@ func genC18(e *Engine, ld *Loaded) ([]FuncTarget, error) {
 			chk(add("ensures", label+".unsupported-kind", "false"))
 		}
 	}
+	// what callers need to go on merging into dst: its lists stay well formed,
+	// each backing array is the old one or was allocated by this call, and they
+	// stay pairwise disjoint and disjoint from the object itself
+	for i, f := range lists {
+		chk(add("ensures", "wf-after["+f+"]", fmt.Sprintf("0 <= len(dst.%s) && len(dst.%s) <= cap(dst.%s) && cap(dst.%s) < 1<<40", f, f, f, f)))
+		chk(add("ensures", "own-after["+f+"]", fmt.Sprintf("!(dst.%s.data == old(dst.%s.data) && cap(dst.%s) == old(cap(dst.%s))) ==> mine(dst.%s.data, cap(dst.%s)*16)", f, f, f, f, f, f)))
+		chk(add("ensures", "sep-after["+f+"]", fmt.Sprintf("disjoint(dst.%s.data, cap(dst.%s)*16, dst, %d)", f, f, size)))
+		for _, g := range lists[i+1:] {
+			chk(add("ensures", "sep-after["+f+","+g+"]", fmt.Sprintf("disjoint(dst.%s.data, cap(dst.%s)*16, dst.%s.data, cap(dst.%s)*16)", f, f, g, g)))
+		}
+	}
 	if len(errs) > 0 {
 		return nil, fmt.Errorf("%s", strings.Join(errs, "; "))
 	}
 	if fn != nil {
 		e.Contracts[fullName(fn)] = fc
 	}
-	return []FuncTarget{{Fn: fn, C: fc}}, nil
+	targets := []FuncTarget{{Fn: fn, C: fc}}
+	more, err := genC18Resolve(e, pkg, lists, size)
+	if err != nil {
+		return nil, err
+	}
+	return append(targets, more...), nil
+}
+
+// genC18Resolve generates the contracts of resolveInheritance / Load / LoadRaw:
+// memory discipline of the fold (every mergeConfig call meets mergeConfig's
+// separation preconditions: the result's lists are owned by the invocation,
+// the parents' lists are not), errors are propagated, the result keeps the
+// description's name. The cyclic-parent clause and the fold ORDER are not
+// decided here.
+func genC18Resolve(e *Engine, pkg *ssa.Package, lists []string, size int64) ([]FuncTarget, error) {
+	var errs []string
+	mk := func(key string, trusted bool) *FuncContract {
+		return &FuncContract{Key: key, Pkg: pkg.Pkg.Path(), Props: []string{"C18"}, Arith: "int", Opts: map[string]string{}, Trusted: trusted,
+			File: "generated from targets.Config by govc (c18.go)"}
+	}
+	add := func(fc *FuncContract, kind, label, src string, loop int) {
+		ex, err := ParseExpr(src)
+		if err != nil {
+			errs = append(errs, err.Error())
+			return
+		}
+		fc.Clauses = append(fc.Clauses, &Clause{Kind: kind, Label: label, Src: src, E: ex, File: fc.File, Props: []string{"C18"}, Loop: loop})
+	}
+	rawObj := pkg.Pkg.Scope().Lookup("RawConfig")
+	if rawObj == nil {
+		return nil, fmt.Errorf("type RawConfig not found")
+	}
+	rawSize := e.Sizes.Sizeof(rawObj.Type())
+	// cfgok(c, pred): the lists of *c are well formed and their arrays satisfy pred (valid / notmine / mine)
+	cfgok := func(c, pred string) string {
+		var parts []string
+		for _, f := range lists {
+			parts = append(parts, fmt.Sprintf("0 <= len(%s.%s) && len(%s.%s) <= cap(%s.%s) && cap(%s.%s) < 1<<40 && (cap(%s.%s) > 0 ==> %s(%s.%s.data, cap(%s.%s)*16))", c, f, c, f, c, f, c, f, c, f, pred, c, f, c, f))
+		}
+		return strings.Join(parts, " && ")
+	}
+	listok := func(l, pred string) string {
+		return fmt.Sprintf("0 <= len(%s) && len(%s) <= cap(%s) && cap(%s) < 1<<40 && (cap(%s) > 0 ==> %s(%s.data, cap(%s)*16))", l, l, l, l, l, pred, l, l)
+	}
+	var out []FuncTarget
+	reg := func(fc *FuncContract) {
+		fn := ResolveFunc(pkg, fc.Key)
+		if fn != nil {
+			e.Contracts[fullName(fn)] = fc
+		}
+		if !fc.Trusted {
+			out = append(out, FuncTarget{Fn: fn, C: fc})
+		}
+	}
+	// LoadRaw: file system + encoding/json + cache (trusted)
+	lr := mk("(*Loader).LoadRaw", true)
+	add(lr, "ensures", "ok", fmt.Sprintf("result1.itab == nil ==> result0 != nil && notmine(result0, %d) && %s && %s", rawSize, cfgok("result0.Config", "notmine"), listok("result0.Inherits", "notmine")), 0)
+	lr.Modifies = []string{"nothing"}
+	reg(lr)
+	// Load: assumed at the recursive call, and verified against the same contract
+	ld := mk("(*Loader).Load", false)
+	add(ld, "requires", "loader", "l != nil", 0)
+	add(ld, "ensures", "ok", fmt.Sprintf("result1.itab == nil ==> result0 != nil && %s", cfgok("result0", "valid")), 0)
+	add(ld, "ensures", "error-xor-result", "result1.itab != nil ==> result0 == nil", 0)
+	ld.Modifies = []string{"nothing"}
+	reg(ld)
+	// at call sites Load's result is memory the caller did not allocate
+	ldc := mk("(*Loader).Load", true)
+	add(ldc, "ensures", "ok", fmt.Sprintf("result1.itab == nil ==> result0 != nil && notmine(result0, %d) && %s", size, cfgok("result0", "notmine")), 0)
+	add(ldc, "ensures", "error-xor-result", "result1.itab != nil ==> result0 == nil", 0)
+	ldc.Modifies = []string{"nothing"}
+	if fn := ResolveFunc(pkg, ldc.Key); fn != nil {
+		e.Contracts[fullName(fn)] = ldc
+	}
+	recvName := func(key string) string {
+		if fn := ResolveFunc(pkg, key); fn != nil && fn.Signature.Recv() != nil {
+			return fn.Signature.Recv().Name()
+		}
+		return "c"
+	}
+	hi := mk("(*RawConfig).HasInheritance", false)
+	rn := recvName(hi.Key)
+	add(hi, "requires", "recv", rn+" != nil", 0)
+	add(hi, "ensures", "def", "result <==> len("+rn+".Inherits) > 0", 0)
+	hi.Modifies = []string{"nothing"}
+	hi.Arith = "bv"
+	reg(hi)
+	gi := mk("(*RawConfig).GetInherits", false)
+	rn = recvName(gi.Key)
+	add(gi, "requires", "recv", rn+" != nil", 0)
+	add(gi, "ensures", "def", "same(result, "+rn+".Inherits)", 0)
+	gi.Modifies = []string{"nothing"}
+	gi.Arith = "bv"
+	reg(gi)
+	// resolveInheritance
+	ri := mk("(*Loader).resolveInheritance", false)
+	add(ri, "requires", "args", "l != nil && raw != nil", 0)
+	add(ri, "requires", "raw-lists", cfgok("raw.Config", "valid")+" && "+listok("raw.Inherits", "valid"), 0)
+	add(ri, "invariant", "range", "-1 <= rangeindex && rangeindex < 1<<40 && result != nil", 1)
+	add(ri, "invariant", "name", "same(result.Name, raw.Config.Name)", 1)
+	for i, f := range lists {
+		add(ri, "invariant", "wf["+f+"]", fmt.Sprintf("0 <= len(result.%s) && len(result.%s) <= cap(result.%s) && cap(result.%s) < 1<<40", f, f, f, f), 1)
+		add(ri, "invariant", "own["+f+"]", fmt.Sprintf("cap(result.%s) > 0 ==> mine(result.%s.data, cap(result.%s)*16)", f, f, f), 1)
+		add(ri, "invariant", "sep["+f+"]", fmt.Sprintf("disjoint(result.%s.data, cap(result.%s)*16, result, %d)", f, f, size), 1)
+		for _, g := range lists[i+1:] {
+			add(ri, "invariant", "sep["+f+","+g+"]", fmt.Sprintf("disjoint(result.%s.data, cap(result.%s)*16, result.%s.data, cap(result.%s)*16)", f, f, g, g), 1)
+		}
+	}
+	add(ri, "ensures", "error-xor-result", "result1.itab != nil ==> result0 == nil", 0)
+	add(ri, "ensures", "ok", "result1.itab == nil ==> result0 != nil", 0)
+	add(ri, "ensures", "name", "result1.itab == nil ==> same(result0.Name, old(raw.Config.Name))", 0)
+	add(ri, "ensures", "lists-ok", "result1.itab == nil ==> "+cfgok("result0", "valid"), 0)
+	ri.Modifies = []string{"nothing"}
+	reg(ri)
+	if len(errs) > 0 {
+		return nil, fmt.Errorf("%s", strings.Join(errs, "; "))
+	}
+	return out, nil
 }
